@@ -189,4 +189,707 @@ theorem groups_ok {g : Graph} {gs : GroupSize} {base : Nat} {p : Prog} {ids : Li
     obtain ⟨_, _, _, _, _, h⟩ := hp
     exact h.symm
 
+/-! ### generic evaluation facts -/
+
+theorem vb_true {v : Bool} : (some (Val.b v) = some (Val.b true)) ↔ v = true := by simp
+
+theorem eval_eqI {σ : Asg} {a b : Expr} {x y : Int} (ha : eval σ a = some (.i x))
+    (hb : eval σ b = some (.i y)) : eval σ (.node .eq [a, b]) = some (.b (decide (x = y))) := by
+  rw [eval_cmp rfl ha hb, cmpOp_eq, C05L1.beq_dec]
+
+theorem sat_eqI {σ : Asg} {a b : Expr} {x y : Int} (ha : eval σ a = some (.i x))
+    (hb : eval σ b = some (.i y)) : eval σ (.node .eq [a, b]) = some (.b true) ↔ x = y := by
+  rw [eval_eqI ha hb, vb_true, decide_eq_true_eq]
+
+theorem sat_leI {σ : Asg} {a b : Expr} {x y : Int} (ha : eval σ a = some (.i x))
+    (hb : eval σ b = some (.i y)) : eval σ (.node .le [a, b]) = some (.b true) ↔ x ≤ y := by
+  rw [eval_cmp rfl ha hb, cmpOp_le, vb_true, decide_eq_true_eq]
+
+theorem eval_neI {σ : Asg} {a b : Expr} {x y : Int} (ha : eval σ a = some (.i x))
+    (hb : eval σ b = some (.i y)) : eval σ (.node .ne [a, b]) = some (.b (decide (x ≠ y))) := by
+  rw [eval_cmp rfl ha hb, cmpOp_ne]
+  by_cases h : x = y <;> simp [h]
+
+theorem sat_imp {σ : Asg} {a b : Expr} {x y : Bool} (ha : eval σ a = some (.b x))
+    (hb : eval σ b = some (.b y)) :
+    eval σ (.node .imp [a, b]) = some (.b true) ↔ (x = true → y = true) := by
+  have := eval_thenRaw ha hb
+  unfold thenRaw at this
+  rw [this, vb_true]
+  cases x <;> simp
+
+theorem eval_iff2 {σ : Asg} {a b : Expr} {x y : Bool} (ha : eval σ a = some (.b x))
+    (hb : eval σ b = some (.b y)) : eval σ (.node .iff [a, b]) = some (.b (x == y)) := by
+  simp [ha, hb, evalOp, allBools]
+
+theorem sat_iff2 {σ : Asg} {a b : Expr} {x y : Bool} (ha : eval σ a = some (.b x))
+    (hb : eval σ b = some (.b y)) :
+    eval σ (.node .iff [a, b]) = some (.b true) ↔ (x = true ↔ y = true) := by
+  rw [eval_iff2 ha hb, vb_true]
+  cases x <;> cases y <;> simp
+
+theorem eval_add2 {σ : Asg} {a b : Expr} {x y : Int} (ha : eval σ a = some (.i x))
+    (hb : eval σ b = some (.i y)) : eval σ (.node .add [a, b]) = some (.i (x + y)) := by
+  have := evalOp_add_ints (ns := [x, y]) (by simp)
+  simp only [List.map_cons, List.map_nil] at this
+  rw [eval_node]
+  simp only [List.map_cons, List.map_nil, ha, hb, this]
+  simp
+
+theorem eval_foldAdd {σ : Asg} : ∀ (r : List Expr) (ns : List Int) (acc : Expr) (a : Int),
+    r.map (eval σ) = ns.map (fun n => some (.i n)) → eval σ acc = some (.i a) →
+    eval σ (r.foldl (fun acc x => .node .add [acc, x]) acc) = some (.i (a + ns.sum))
+  | [], ns, acc, a, h, ha => by
+    cases ns with
+    | nil => simpa using ha
+    | cons _ _ => simp at h
+  | t :: r, ns, acc, a, h, ha => by
+    cases ns with
+    | nil => simp at h
+    | cons x ns =>
+      simp only [List.map_cons, List.cons.injEq] at h
+      rw [List.foldl_cons, eval_foldAdd r ns _ (a + x) h.2 (eval_add2 ha h.1)]
+      simp only [List.sum_cons]
+      congr 2; omega
+
+theorem eval_lhsE {σ : Asg} (terms : List Expr) (ns : List Int)
+    (h : terms.map (eval σ) = ns.map (fun n => some (.i n))) :
+    eval σ (lhsE terms) = some (.i (ns.sum + 1)) := by
+  cases terms with
+  | nil =>
+    cases ns with
+    | nil => simp [lhsE]
+    | cons _ _ => simp at h
+  | cons t r =>
+    cases ns with
+    | nil => simp at h
+    | cons x ns =>
+      simp only [List.map_cons, List.cons.injEq] at h
+      unfold lhsE
+      rw [eval_add2 (eval_foldAdd r ns _ (0 + x) h.2 (eval_add2 (eval_litI σ 0) h.1)) (eval_litI σ 1)]
+      simp only [List.sum_cons]
+      congr 2; omega
+
+theorem edge_bounds {g : Graph} (hwf : g.wf = true) {k u v : Nat} (hk : g.edges[k]? = some (u, v)) :
+    k < g.edges.length ∧ u < g.n ∧ v < g.n := by
+  obtain ⟨hlt, _⟩ := List.getElem?_eq_some_iff.1 hk
+  have hm : (u, v) ∈ g.edges := List.mem_of_getElem? hk
+  have := List.all_eq_true.1 hwf _ hm
+  simp only [Bool.and_eq_true, decide_eq_true_eq] at this
+  exact ⟨hlt, this.1, this.2⟩
+
+theorem forall_mem_flatten_range {n : Nat} {f : Nat → List Expr} {P : Expr → Prop} :
+    (∀ c ∈ ((List.range n).map f).flatten, P c) ↔ ∀ i, i < n → ∀ c ∈ f i, P c := by
+  rw [List.forall_mem_flatten, List.forall_mem_map]
+  simp only [List.mem_range]
+
+theorem forall_mem_map_range {n : Nat} {f : Nat → Expr} {P : Expr → Prop} :
+    (∀ c ∈ (List.range n).map f, P c) ↔ ∀ i, i < n → P (f i) := by
+  rw [List.forall_mem_map]
+  simp only [List.mem_range]
+
+/-! ### declarations -/
+
+def DeclOK (base : Nat) (σ' : Asg) (D : List VarDecl) : Prop :=
+  ∀ k lo hi, D[k]? = some (.int lo hi) → lo ≤ σ'.i (base + k) ∧ σ'.i (base + k) ≤ hi
+
+theorem satFrag_iff {base : Nat} {p : Prog} {σ' : Asg} :
+    SatFrag base p σ' ↔ DeclOK base σ' p.decls ∧ ∀ c ∈ p.cs, eval σ' c = some (.b true) := Iff.rfl
+
+theorem declOK_append {base : Nat} {σ' : Asg} {A B : List VarDecl} :
+    DeclOK base σ' (A ++ B) ↔ DeclOK base σ' A ∧ DeclOK (base + A.length) σ' B := by
+  constructor
+  · intro h
+    refine ⟨fun k lo hi hk => h k lo hi ?_, fun k lo hi hk => ?_⟩
+    · rw [List.getElem?_append_left (List.getElem?_eq_some_iff.1 hk).1]; exact hk
+    · have := h (A.length + k) lo hi (by
+        rw [List.getElem?_append_right (by omega)]; simpa using hk)
+      rwa [← Nat.add_assoc] at this
+  · rintro ⟨h1, h2⟩ k lo hi hk
+    by_cases hk' : k < A.length
+    · rw [List.getElem?_append_left hk'] at hk; exact h1 k lo hi hk
+    · rw [List.getElem?_append_right (by omega)] at hk
+      have := h2 (k - A.length) lo hi hk
+      rwa [show base + A.length + (k - A.length) = base + k by omega] at this
+
+theorem declOK_int {base : Nat} {σ' : Asg} {n : Nat} {lo hi : Int} :
+    DeclOK base σ' (List.replicate n (.int lo hi)) ↔
+      ∀ i, i < n → lo ≤ σ'.i (base + i) ∧ σ'.i (base + i) ≤ hi := by
+  constructor
+  · intro h i hi'
+    exact h i lo hi (by simp [hi'])
+  · intro h k lo' hi' hk
+    obtain ⟨hlt, he⟩ := List.getElem?_eq_some_iff.1 hk
+    simp only [List.length_replicate] at hlt
+    simp only [List.getElem_replicate, VarDecl.int.injEq] at he
+    obtain ⟨rfl, rfl⟩ := he
+    exact h k hlt
+
+theorem declOK_bool {base : Nat} {σ' : Asg} {n : Nat} :
+    DeclOK base σ' (List.replicate n .bool) := by
+  intro k lo hi hk
+  have := List.mem_of_getElem? hk
+  simp at this
+
+/-! ### meaning of the blocks under an assignment whose auxiliary values are `gid … ts` -/
+
+/-- `σ'` carries the values `gid … ts` at the ids of the six auxiliary arrays. -/
+structure Reads (σ' : Asg) (base n m : Nat) (gid rank : Nat → Int) (root ae : Nat → Bool)
+    (ds ts : Nat → Int) : Prop where
+  hgid : ∀ i, i < n → σ'.i (base + i) = gid i
+  hrank : ∀ i, i < n → σ'.i (base + n + i) = rank i
+  hroot : ∀ i, i < n → σ'.b (base + 2 * n + i) = root i
+  hae : ∀ e, e < m → σ'.b (base + 3 * n + e) = ae e
+  hds : ∀ i, i < n → σ'.i (base + 3 * n + m + i) = ds i
+  hts : ∀ i, i < n → σ'.i (base + 4 * n + m + i) = ts i
+
+section Sem
+variable {g : Graph} {base : Nat} {σ' : Asg} {gid rank : Nat → Int} {root ae : Nat → Bool}
+  {ds ts : Nat → Int}
+
+theorem eval_gidE (hr : Reads σ' base g.n g.edges.length gid rank root ae ds ts) {i : Nat}
+    (hi : i < g.n) : eval σ' (gidE base i) = some (.i (gid i)) := by
+  rw [gidE, eval_ivar, hr.hgid i hi]
+
+theorem eval_rankE (hr : Reads σ' base g.n g.edges.length gid rank root ae ds ts) {i : Nat}
+    (hi : i < g.n) : eval σ' (rankE base g.n i) = some (.i (rank i)) := by
+  rw [rankE, eval_ivar, hr.hrank i hi]
+
+theorem eval_rootE (hr : Reads σ' base g.n g.edges.length gid rank root ae ds ts) {i : Nat}
+    (hi : i < g.n) : eval σ' (rootE base g.n i) = some (.b (root i)) := by
+  rw [rootE, eval_bvar, hr.hroot i hi]
+
+theorem eval_aeE (hr : Reads σ' base g.n g.edges.length gid rank root ae ds ts) {e : Nat}
+    (he : e < g.edges.length) : eval σ' (aeE base g.n e) = some (.b (ae e)) := by
+  rw [aeE, eval_bvar, hr.hae e he]
+
+theorem eval_dsE (hr : Reads σ' base g.n g.edges.length gid rank root ae ds ts) {i : Nat}
+    (hi : i < g.n) : eval σ' (dsE base g.n g.edges.length i) = some (.i (ds i)) := by
+  rw [dsE, eval_ivar, hr.hds i hi]
+
+theorem eval_tsE (hr : Reads σ' base g.n g.edges.length gid rank root ae ds ts) {i : Nat}
+    (hi : i < g.n) : eval σ' (tsE base g.n g.edges.length i) = some (.i (ts i)) := by
+  rw [tsE, eval_ivar, hr.hts i hi]
+
+theorem sat_c0 (hr : Reads σ' base g.n g.edges.length gid rank root ae ds ts) :
+    (∀ c ∈ c0E base g.n, eval σ' c = some (.b true)) ↔
+      ∀ i, i < g.n → (root i = true ↔ rank i = 0) := by
+  unfold c0E
+  rw [forall_mem_map_range]
+  refine forall₂_congr fun i hi => ?_
+  rw [sat_iff2 (eval_rootE hr hi) (eval_eqI (eval_rankE hr hi) (eval_litI σ' 0)), decide_eq_true_eq]
+
+theorem eval_ctLt (hwf : g.wf = true) (hr : Reads σ' base g.n g.edges.length gid rank root ae ds ts)
+    {i : Nat} (hi : i < g.n) :
+    eval σ' (countTrueE ((g.incident i).map fun je =>
+        .node .and [aeE base g.n je.2, .node .lt [rankE base g.n je.1, rankE base g.n i]])) =
+      some (.i ((countInc g i (fun je => ae je.2 && decide (rank je.1 < rank i)) : Nat))) := by
+  rw [eval_countTrueE ((g.incident i).map (fun je => ae je.2 && decide (rank je.1 < rank i))) (by
+    rw [List.map_map, List.map_map]
+    apply List.map_congr_left
+    intro je hje
+    have hb := incident_bounds hwf hje
+    simp only [Function.comp]
+    rw [eval_and2 (eval_aeE hr hb.2.1) (eval_cmp rfl (eval_rankE hr hb.1) (eval_rankE hr hi))]
+    rfl)]
+  congr 3
+  rw [List.count_eq_countP, List.countP_map, List.countP_eq_length_filter]
+  unfold countInc
+  congr 1
+  apply List.filter_congr
+  intro x _; simp
+
+theorem sat_per (hwf : g.wf = true) (hr : Reads σ' base g.n g.edges.length gid rank root ae ds ts)
+    {i : Nat} (hi : i < g.n) :
+    (∀ c ∈ perE g base i, eval σ' c = some (.b true)) ↔
+      (root i = true → gid i = (i : Int)) ∧
+      (∀ je ∈ g.incident i, ae je.2 = true → rank je.1 ≠ rank i) ∧
+      countInc g i (fun je => ae je.2 && decide (rank je.1 < rank i)) = if root i then 0 else 1 := by
+  unfold perE
+  rw [List.forall_mem_append, List.forall_mem_append, List.forall_mem_singleton,
+    List.forall_mem_singleton, List.forall_mem_map, and_assoc]
+  refine and_congr ?_ (and_congr ?_ ?_)
+  · rw [sat_imp (eval_rootE hr hi) (eval_eqI (eval_gidE hr hi) (eval_litI σ' i)), decide_eq_true_eq]
+  · refine forall₂_congr fun je hje => ?_
+    have hb := incident_bounds hwf hje
+    rw [sat_imp (eval_aeE hr hb.2.1) (eval_neI (eval_rankE hr hb.1) (eval_rankE hr hi)),
+      decide_eq_true_eq]
+  · rw [sat_eqI (eval_ctLt hwf hr hi) (eval_ite (eval_rootE hr hi) (eval_litI ..) (eval_litI ..))]
+    cases root i <;> simp
+
+theorem sat_c2 (hwf : g.wf = true) (hr : Reads σ' base g.n g.edges.length gid rank root ae ds ts) :
+    (∀ c ∈ c2E g base, eval σ' c = some (.b true)) ↔
+      ∀ k u v, g.edges[k]? = some (u, v) → ae k = true → gid u = gid v := by
+  unfold c2E
+  rw [List.forall_mem_map]
+  constructor
+  · intro h k u v hk
+    have hb := edge_bounds hwf hk
+    have := h ((u, v), k) (List.mem_zipIdx_iff_getElem?.2 hk)
+    rwa [sat_imp (eval_aeE hr hb.1) (eval_eqI (eval_gidE hr hb.2.1) (eval_gidE hr hb.2.2)),
+      decide_eq_true_eq] at this
+  · rintro h ⟨⟨u, v⟩, k⟩ hm
+    have hk : g.edges[k]? = some (u, v) := List.mem_zipIdx_iff_getElem?.1 hm
+    have hb := edge_bounds hwf hk
+    rw [sat_imp (eval_aeE hr hb.1) (eval_eqI (eval_gidE hr hb.2.1) (eval_gidE hr hb.2.2)),
+      decide_eq_true_eq]
+    exact h k u v hk
+
+theorem sat_c3 (hr : Reads σ' base g.n g.edges.length gid rank root ae ds ts) :
+    (∀ c ∈ c3E base g.n g.edges.length, eval σ' c = some (.b true)) ↔
+      ∀ i, i < g.n → ds i ≤ ts i := by
+  unfold c3E
+  rw [forall_mem_map_range]
+  refine forall₂_congr fun i hi => ?_
+  rw [sat_leI (eval_dsE hr hi) (eval_tsE hr hi)]
+
+theorem sat_c4 (hr : Reads σ' base g.n g.edges.length gid rank root ae ds ts) :
+    (∀ c ∈ c4E base g.n g.edges.length, eval σ' c = some (.b true)) ↔
+      ∀ i, i < g.n → root i = true → ds i = ts i := by
+  unfold c4E
+  rw [forall_mem_map_range]
+  refine forall₂_congr fun i hi => ?_
+  rw [sat_imp (eval_rootE hr hi) (eval_eqI (eval_dsE hr hi) (eval_tsE hr hi)), decide_eq_true_eq]
+
+theorem sat_c5 (hwf : g.wf = true) (hr : Reads σ' base g.n g.edges.length gid rank root ae ds ts)
+    (gs : GroupSize) :
+    (∀ c ∈ c5E g gs base, eval σ' c = some (.b true)) ↔
+      (perEdge gs = true → ∀ k u v, g.edges[k]? = some (u, v) → ae k = true → ts u = ts v) := by
+  have key : (∀ c ∈ g.edges.zipIdx.map (fun uv => Expr.node .imp [aeE base g.n uv.2,
+        .node .eq [tsE base g.n g.edges.length uv.1.1, tsE base g.n g.edges.length uv.1.2]]),
+        eval σ' c = some (.b true)) ↔
+      ∀ k u v, g.edges[k]? = some (u, v) → ae k = true → ts u = ts v := by
+    rw [List.forall_mem_map]
+    constructor
+    · intro h k u v hk
+      have hb := edge_bounds hwf hk
+      have := h ((u, v), k) (List.mem_zipIdx_iff_getElem?.2 hk)
+      rwa [sat_imp (eval_aeE hr hb.1) (eval_eqI (eval_tsE hr hb.2.1) (eval_tsE hr hb.2.2)),
+        decide_eq_true_eq] at this
+    · rintro h ⟨⟨u, v⟩, k⟩ hm
+      have hk : g.edges[k]? = some (u, v) := List.mem_zipIdx_iff_getElem?.1 hm
+      have hb := edge_bounds hwf hk
+      rw [sat_imp (eval_aeE hr hb.1) (eval_eqI (eval_tsE hr hb.2.1) (eval_tsE hr hb.2.2)),
+        decide_eq_true_eq]
+      exact h k u v hk
+  cases gs with
+  | scalar s => simp [c5E, perEdge]
+  | none => simpa [c5E, perEdge] using key
+  | perVertex l => simpa [c5E, perEdge] using key
+
+theorem sat_sum (hwf : g.wf = true) (hr : Reads σ' base g.n g.edges.length gid rank root ae ds ts)
+    {i : Nat} (hi : i < g.n) :
+    eval σ' (.node .eq [dsE base g.n g.edges.length i, lhsE ((g.incident i).map (termE g base i))]) =
+        some (.b true) ↔
+      ((g.incident i).map fun je => if ae je.2 && decide (rank je.1 > rank i) then ds je.1 else 0).sum + 1
+        = ds i := by
+  rw [sat_eqI (eval_dsE hr hi) (eval_lhsE _
+    ((g.incident i).map fun je => if ae je.2 && decide (rank je.1 > rank i) then ds je.1 else 0) (by
+      rw [List.map_map, List.map_map]
+      apply List.map_congr_left
+      intro je hje
+      have hb := incident_bounds hwf hje
+      simp only [Function.comp, termE]
+      rw [eval_ite (eval_and2 (eval_aeE hr hb.2.1) (eval_cmp rfl (eval_rankE hr hb.1) (eval_rankE hr hi)))
+        (eval_dsE hr hb.1) (eval_litI ..)]
+      rfl))]
+  exact eq_comm
+
+/-- A caller-supplied size expression evaluates under any extension as under `σ`. -/
+theorem eval_sizeArg {σ : Asg} {e : Expr} (hag : AgreeBelow base σ σ') (hw : wtI e = true)
+    (hv : e.varsBelow base = true) : ∃ x, eval σ e = some (.i x) ∧ eval σ' e = some (.i x) := by
+  obtain ⟨x, hx⟩ := wtI_eval σ e hw
+  exact ⟨x, hx, by rw [← eval_congr_of_varsBelow hag e hv, hx]⟩
+
+theorem sat_specE {σ : Asg} {gs : GroupSize} (hsz : SizeArgs base g.n gs) (hag : AgreeBelow base σ σ')
+    (hr : Reads σ' base g.n g.edges.length gid rank root ae ds ts) {i : Nat} (hi : i < g.n) :
+    (∀ c ∈ specE gs base g.n g.edges.length i, eval σ' c = some (.b true)) ↔
+      ∀ s, sizeSpec σ gs i = some s → ts i = s := by
+  cases gs with
+  | none => simp [specE, sizeSpec]
+  | scalar e =>
+    obtain ⟨x, hx, hx'⟩ := eval_sizeArg hag hsz.1 hsz.2
+    simp only [specE, sizeSpec, hx, List.forall_mem_singleton, Option.some.injEq]
+    rw [sat_eqI (eval_tsE hr hi) hx']
+    constructor
+    · rintro h s rfl; exact h
+    · intro h; exact h x rfl
+  | perVertex l =>
+    have hil : i < l.length := by rw [hsz.1]; exact hi
+    simp only [specE, sizeSpec, List.getElem?_eq_getElem hil]
+    cases hx : l[i] with
+    | none => simp
+    | some e =>
+      have hm : some e ∈ l := hx ▸ List.getElem_mem hil
+      obtain ⟨x, hx, hx'⟩ := eval_sizeArg hag (hsz.2 e hm).1 (hsz.2 e hm).2
+      simp only [hx, List.forall_mem_singleton, Option.some.injEq]
+      rw [sat_eqI (eval_tsE hr hi) hx']
+      constructor
+      · rintro h s rfl; exact h
+      · intro h; exact h x rfl
+
+theorem sat_per2 {σ : Asg} {gs : GroupSize} (hwf : g.wf = true) (hsz : SizeArgs base g.n gs)
+    (hag : AgreeBelow base σ σ')
+    (hr : Reads σ' base g.n g.edges.length gid rank root ae ds ts) {i : Nat} (hi : i < g.n) :
+    (∀ c ∈ per2E g gs base i, eval σ' c = some (.b true)) ↔
+      (((g.incident i).map fun je => if ae je.2 && decide (rank je.1 > rank i) then ds je.1 else 0).sum + 1
+        = ds i) ∧ ∀ s, sizeSpec σ gs i = some s → ts i = s := by
+  unfold per2E
+  rw [List.forall_mem_cons, sat_sum hwf hr hi, sat_specE hsz hag hr hi]
+
+/-- The size-free fields of `GroupCert`. -/
+structure BaseOn (g : Graph) (gid rank : Nat → Int) (root ae : Nat → Bool) : Prop where
+  gid_rng : ∀ i, i < g.n → 0 ≤ gid i ∧ gid i ≤ (g.n : Int) - 1
+  rank_rng : ∀ i, i < g.n → 0 ≤ rank i ∧ rank i ≤ (g.n : Int) - 1
+  root_iff : ∀ i, i < g.n → (root i = true ↔ rank i = 0)
+  root_gid : ∀ i, i < g.n → root i = true → gid i = (i : Int)
+  ae_rank : ∀ i, i < g.n → ∀ je ∈ g.incident i, ae je.2 = true → rank je.1 ≠ rank i
+  loc : ∀ i, i < g.n →
+    countInc g i (fun je => ae je.2 && decide (rank je.1 < rank i)) = if root i then 0 else 1
+  ae_gid : ∀ k u v, g.edges[k]? = some (u, v) → ae k = true → gid u = gid v
+
+/-- The size bookkeeping fields of `GroupCert`. -/
+structure SizeOn (g : Graph) (size : Nat → Option Int) (pe : Bool) (rank : Nat → Int)
+    (root ae : Nat → Bool) (ds ts : Nat → Int) : Prop where
+  sz_rng : ∀ i, i < g.n → 1 ≤ ds i ∧ ds i ≤ g.n ∧ 1 ≤ ts i ∧ ts i ≤ g.n
+  sz_le : ∀ i, i < g.n → ds i ≤ ts i
+  sz_root : ∀ i, i < g.n → root i = true → ds i = ts i
+  sz_sum : ∀ i, i < g.n →
+    ((g.incident i).map fun je => if ae je.2 && decide (rank je.1 > rank i) then ds je.1 else 0).sum + 1 = ds i
+  sz_spec : ∀ i s, i < g.n → size i = some s → ts i = s
+  sz_edge : pe = true → ∀ k u v, g.edges[k]? = some (u, v) → ae k = true → ts u = ts v
+
+theorem declOK_base (hr : Reads σ' base g.n g.edges.length gid rank root ae ds ts) :
+    DeclOK base σ' (baseDecls g) ↔
+      (∀ i, i < g.n → 0 ≤ gid i ∧ gid i ≤ (g.n : Int) - 1) ∧
+      (∀ i, i < g.n → 0 ≤ rank i ∧ rank i ≤ (g.n : Int) - 1) := by
+  unfold baseDecls
+  rw [declOK_append, declOK_append, declOK_append, declOK_int, declOK_int]
+  simp only [List.length_replicate, declOK_bool, and_true]
+  refine and_congr (forall₂_congr fun i hi => ?_) (forall₂_congr fun i hi => ?_)
+  · rw [hr.hgid i hi]
+  · rw [hr.hrank i hi]
+
+theorem sat_baseCs (hwf : g.wf = true) (hr : Reads σ' base g.n g.edges.length gid rank root ae ds ts) :
+    (DeclOK base σ' (baseDecls g) ∧ ∀ c ∈ baseCs g base, eval σ' c = some (.b true)) ↔
+      BaseOn g gid rank root ae := by
+  unfold baseCs
+  rw [declOK_base hr, List.forall_mem_append, List.forall_mem_append, sat_c0 hr, sat_c2 hwf hr,
+    forall_mem_flatten_range]
+  have hper : (∀ i, i < g.n → ∀ c ∈ perE g base i, eval σ' c = some (.b true)) ↔
+      ∀ i, i < g.n → ((root i = true → gid i = (i : Int)) ∧
+        (∀ je ∈ g.incident i, ae je.2 = true → rank je.1 ≠ rank i) ∧
+        countInc g i (fun je => ae je.2 && decide (rank je.1 < rank i)) = if root i then 0 else 1) :=
+    forall₂_congr fun i hi => sat_per hwf hr hi
+  rw [hper]
+  constructor
+  · rintro ⟨⟨h1, h2⟩, ⟨h3, h4⟩, h5⟩
+    exact ⟨h1, h2, h3, fun i hi => (h4 i hi).1, fun i hi => (h4 i hi).2.1,
+      fun i hi => (h4 i hi).2.2, h5⟩
+  · intro h
+    exact ⟨⟨h.gid_rng, h.rank_rng⟩, ⟨h.root_iff, fun i hi => ⟨h.root_gid i hi, h.ae_rank i hi, h.loc i hi⟩⟩,
+      h.ae_gid⟩
+
+theorem satFrag_none (hwf : g.wf = true)
+    (hr : Reads σ' base g.n g.edges.length gid rank root ae ds ts) :
+    SatFrag base (vgProg g .none base) σ' ↔ BaseOn g gid rank root ae :=
+  sat_baseCs hwf hr
+
+theorem vgProg_sized {gs : GroupSize} (h : withSizes gs = true) :
+    vgProg g gs base =
+      { decls := baseDecls g ++ List.replicate g.n (.int 1 g.n) ++ List.replicate g.n (.int 1 g.n),
+        cs := baseCs g base ++ c3E base g.n g.edges.length ++ c4E base g.n g.edges.length ++
+          ((List.range g.n).map (per2E g gs base)).flatten ++ c5E g gs base } := by
+  cases gs with
+  | none => cases h
+  | scalar s => rfl
+  | perVertex l => rfl
+
+theorem baseDecls_length : (baseDecls g).length = 3 * g.n + g.edges.length := by
+  simp only [baseDecls, List.length_append, List.length_replicate]; omega
+
+theorem satFrag_sized {σ : Asg} {gs : GroupSize} (hwf : g.wf = true) (hsz : SizeArgs base g.n gs)
+    (hag : AgreeBelow base σ σ') (hws : withSizes gs = true)
+    (hr : Reads σ' base g.n g.edges.length gid rank root ae ds ts) :
+    SatFrag base (vgProg g gs base) σ' ↔
+      BaseOn g gid rank root ae ∧ SizeOn g (sizeSpec σ gs) (perEdge gs) rank root ae ds ts := by
+  rw [vgProg_sized hws, satFrag_iff]
+  simp only
+  rw [declOK_append, declOK_append, declOK_int, declOK_int, List.forall_mem_append,
+    List.forall_mem_append, List.forall_mem_append, List.forall_mem_append, sat_c3 hr, sat_c4 hr,
+    sat_c5 hwf hr, forall_mem_flatten_range]
+  have hper : (∀ i, i < g.n → ∀ c ∈ per2E g gs base i, eval σ' c = some (.b true)) ↔
+      ∀ i, i < g.n → ((((g.incident i).map fun je =>
+          if ae je.2 && decide (rank je.1 > rank i) then ds je.1 else 0).sum + 1 = ds i) ∧
+        ∀ s, sizeSpec σ gs i = some s → ts i = s) :=
+    forall₂_congr fun i hi => sat_per2 hwf hsz hag hr hi
+  rw [hper]
+  have hb := sat_baseCs hwf hr
+  simp only [List.length_append, List.length_replicate, baseDecls_length]
+  have hd1 : (∀ i, i < g.n → (1 : Int) ≤ σ'.i (base + (3 * g.n + g.edges.length) + i) ∧
+      σ'.i (base + (3 * g.n + g.edges.length) + i) ≤ g.n) ↔ ∀ i, i < g.n → 1 ≤ ds i ∧ ds i ≤ g.n := by
+    refine forall₂_congr fun i hi => ?_
+    rw [show base + (3 * g.n + g.edges.length) + i = base + 3 * g.n + g.edges.length + i by omega,
+      hr.hds i hi]
+  have hd2 : (∀ i, i < g.n → (1 : Int) ≤ σ'.i (base + (3 * g.n + g.edges.length + g.n) + i) ∧
+      σ'.i (base + (3 * g.n + g.edges.length + g.n) + i) ≤ g.n) ↔ ∀ i, i < g.n → 1 ≤ ts i ∧ ts i ≤ g.n := by
+    refine forall₂_congr fun i hi => ?_
+    rw [show base + (3 * g.n + g.edges.length + g.n) + i = base + 4 * g.n + g.edges.length + i by omega,
+      hr.hts i hi]
+  rw [hd1, hd2]
+  constructor
+  · rintro ⟨⟨⟨hA, h1⟩, h2⟩, ⟨⟨⟨hB, h3⟩, h4⟩, h5⟩, h6⟩
+    refine ⟨hb.1 ⟨hA, hB⟩, ?_⟩
+    exact ⟨fun i hi => ⟨(h1 i hi).1, (h1 i hi).2, (h2 i hi).1, (h2 i hi).2⟩, h3, h4,
+      fun i hi => (h5 i hi).1, fun i s hi => (h5 i hi).2 s, h6⟩
+  · rintro ⟨hB, hS⟩
+    obtain ⟨hA, hB⟩ := hb.2 hB
+    exact ⟨⟨⟨hA, fun i hi => ⟨(hS.sz_rng i hi).1, (hS.sz_rng i hi).2.1⟩⟩,
+        fun i hi => ⟨(hS.sz_rng i hi).2.2.1, (hS.sz_rng i hi).2.2.2⟩⟩,
+      ⟨⟨⟨hB, hS.sz_le⟩, hS.sz_root⟩, fun i hi => ⟨hS.sz_sum i hi, fun s => hS.sz_spec i s hi⟩⟩, hS.sz_edge⟩
+
+end Sem
+
+/-! ### main theorems -/
+
+theorem reads_self (σ' : Asg) (base n m : Nat) :
+    Reads σ' base n m (fun i => σ'.i (base + i)) (fun i => σ'.i (base + n + i))
+      (fun i => σ'.b (base + 2 * n + i)) (fun e => σ'.b (base + 3 * n + e))
+      (fun i => σ'.i (base + 3 * n + m + i)) (fun i => σ'.i (base + 4 * n + m + i)) :=
+  ⟨fun _ _ => rfl, fun _ _ => rfl, fun _ _ => rfl, fun _ _ => rfl, fun _ _ => rfl, fun _ _ => rfl⟩
+
+/-- satisfying extension ⇒ certificate with the same group ids -/
+theorem groups_sat_cert {g : Graph} {gs : GroupSize} {base : Nat} {p : Prog} {ids : List Expr} {σ σ' : Asg}
+    (hwf : g.wf = true) (hsz : SizeArgs base g.n gs)
+    (hp : variableGroups g gs base = .ok (p, ids))
+    (hag : AgreeBelow base σ σ') (hs : SatFrag base p σ') :
+    ∃ C : GroupCert g (sizeSpec σ gs) (withSizes gs) (perEdge gs), ∀ v, v < g.n → C.gid v = σ'.i (base + v) := by
+  have hn := (groups_ok hp).2
+  rw [vg_eq_prog hn hsz] at hp
+  cases hp
+  have hr := reads_self σ' base g.n g.edges.length
+  by_cases hws : withSizes gs = true
+  · obtain ⟨hB, hS⟩ := (satFrag_sized hwf hsz hag hws hr).1 hs
+    exact ⟨{ gid := _, rank := _, root := _, ae := _, ds := _, ts := _,
+             gid_rng := hB.gid_rng, rank_rng := hB.rank_rng, root_iff := hB.root_iff,
+             root_gid := hB.root_gid, ae_rank := hB.ae_rank, loc := hB.loc, ae_gid := hB.ae_gid,
+             sz_rng := fun _ => hS.sz_rng, sz_le := fun _ => hS.sz_le, sz_root := fun _ => hS.sz_root,
+             sz_sum := fun _ => hS.sz_sum, sz_spec := fun _ => hS.sz_spec,
+             sz_edge := fun _ => hS.sz_edge }, fun _ _ => rfl⟩
+  · have hgs : gs = .none := by
+      cases gs with
+      | none => rfl
+      | scalar s => exact absurd rfl hws
+      | perVertex l => exact absurd rfl hws
+    subst hgs
+    have hB := (satFrag_none hwf hr).1 hs
+    exact ⟨{ gid := _, rank := _, root := _, ae := _,
+             ds := fun _ => 0, ts := fun _ => 0,
+             gid_rng := hB.gid_rng, rank_rng := hB.rank_rng, root_iff := hB.root_iff,
+             root_gid := hB.root_gid, ae_rank := hB.ae_rank, loc := hB.loc, ae_gid := hB.ae_gid,
+             sz_rng := fun h => absurd h hws, sz_le := fun h => absurd h hws,
+             sz_root := fun h => absurd h hws, sz_sum := fun h => absurd h hws,
+             sz_spec := fun h => absurd h hws, sz_edge := fun h => absurd h hws }, fun _ _ => rfl⟩
+
+/-- Extension of `σ` by the six auxiliary arrays. -/
+def extend (σ : Asg) (base n m : Nat) (gid rank : Nat → Int) (root ae : Nat → Bool)
+    (ds ts : Nat → Int) : Asg where
+  i := fun id =>
+    if id < base then σ.i id
+    else if id < base + n then gid (id - base)
+    else if id < base + 2 * n then rank (id - (base + n))
+    else if id < base + 3 * n + m then 0
+    else if id < base + 4 * n + m then ds (id - (base + 3 * n + m))
+    else ts (id - (base + 4 * n + m))
+  b := fun id =>
+    if id < base then σ.b id
+    else if id < base + 3 * n then root (id - (base + 2 * n))
+    else ae (id - (base + 3 * n))
+
+theorem extend_agree (σ : Asg) (base n m : Nat) (gid rank : Nat → Int) (root ae : Nat → Bool)
+    (ds ts : Nat → Int) : AgreeBelow base σ (extend σ base n m gid rank root ae ds ts) := by
+  intro id hid
+  simp only [extend]
+  rw [if_pos hid, if_pos hid]
+  exact ⟨rfl, rfl⟩
+
+theorem extend_reads (σ : Asg) (base n m : Nat) (gid rank : Nat → Int) (root ae : Nat → Bool)
+    (ds ts : Nat → Int) :
+    Reads (extend σ base n m gid rank root ae ds ts) base n m gid rank root ae ds ts := by
+  refine ⟨?_, ?_, ?_, ?_, ?_, ?_⟩
+  · intro i hi
+    simp only [extend]
+    rw [if_neg (by omega), if_pos (by omega)]
+    congr 1; omega
+  · intro i hi
+    simp only [extend]
+    rw [if_neg (by omega), if_neg (by omega), if_pos (by omega)]
+    congr 1; omega
+  · intro i hi
+    simp only [extend]
+    rw [if_neg (by omega), if_pos (by omega)]
+    congr 1; omega
+  · intro e he
+    simp only [extend]
+    rw [if_neg (by omega), if_neg (by omega)]
+    congr 1; omega
+  · intro i hi
+    simp only [extend]
+    rw [if_neg (by omega), if_neg (by omega), if_neg (by omega), if_neg (by omega), if_pos (by omega)]
+    congr 1; omega
+  · intro i hi
+    simp only [extend]
+    rw [if_neg (by omega), if_neg (by omega), if_neg (by omega), if_neg (by omega), if_neg (by omega)]
+    congr 1; omega
+
+/-- certificate ⇒ satisfying extension with the same group ids -/
+theorem groups_cert_sat {g : Graph} {gs : GroupSize} {base : Nat} {p : Prog} {ids : List Expr} (σ : Asg)
+    (hwf : g.wf = true) (hsz : SizeArgs base g.n gs)
+    (hp : variableGroups g gs base = .ok (p, ids))
+    (C : GroupCert g (sizeSpec σ gs) (withSizes gs) (perEdge gs)) :
+    ∃ σ', AgreeBelow base σ σ' ∧ SatFrag base p σ' ∧ ∀ v, v < g.n → σ'.i (base + v) = C.gid v := by
+  have hn := (groups_ok hp).2
+  rw [vg_eq_prog hn hsz] at hp
+  cases hp
+  have hag := extend_agree σ base g.n g.edges.length C.gid C.rank C.root C.ae C.ds C.ts
+  have hr := extend_reads σ base g.n g.edges.length C.gid C.rank C.root C.ae C.ds C.ts
+  refine ⟨_, hag, ?_, hr.hgid⟩
+  have hB : BaseOn g C.gid C.rank C.root C.ae :=
+    ⟨C.gid_rng, C.rank_rng, C.root_iff, C.root_gid, C.ae_rank, C.loc, C.ae_gid⟩
+  by_cases hws : withSizes gs = true
+  · exact (satFrag_sized hwf hsz hag hws hr).2 ⟨hB,
+      ⟨C.sz_rng hws, C.sz_le hws, C.sz_root hws, C.sz_sum hws, C.sz_spec hws, C.sz_edge hws⟩⟩
+  · have hgs : gs = .none := by
+      cases gs with
+      | none => rfl
+      | scalar s => exact absurd rfl hws
+      | perVertex l => exact absurd rfl hws
+    subst hgs
+    exact (satFrag_none hwf hr).2 hB
+
+/-! ### the auxiliary `_with_borders` route -/
+
+/-- Whatever form Python `a == b` takes on Boolean operands, it evaluates to the equivalence. -/
+theorem eval_iffPy {σ : Asg} {a b e : Expr} {x y : Bool} (h : iffPy a b = .ok e)
+    (ha : eval σ a = some (.b x)) (hb : eval σ b = some (.b y)) : eval σ e = some (.b (x == y)) := by
+  have hswap : eval σ (.node .iff [b, a]) = some (.b (x == y)) := by
+    rw [eval_iff2 hb ha, Bool.beq_comm]
+  unfold iffPy at h
+  split at h
+  · cases h
+    simp only [eval_litB, Option.some.injEq, Val.b.injEq] at ha hb
+    subst ha hb
+    rw [eval_litB]
+  · split at h
+    · cases h; exact hswap
+    · cases h
+  · split at h
+    · cases h; exact hswap
+    · cases h
+  · split at h
+    · cases h; exact eval_iff2 ha hb
+    · cases h
+
+theorem mapM_ok_mem {ε α β : Type} {f : α → Except ε β} {l : List α} {r : List β}
+    (hm : l.mapM f = .ok r) {x : α} (hx : x ∈ l) : ∃ y, f x = .ok y ∧ y ∈ r := by
+  obtain ⟨hl, hi⟩ := mapM_eq_ok_iff.1 hm
+  obtain ⟨i, hi', rfl⟩ := List.getElem_of_mem hx
+  exact ⟨r[i]'(by omega), hi i hi' (by omega), List.getElem_mem _⟩
+
+theorem getE_ivars {base n u : Nat} (hu : u < n) : getE (ivars base n) u = .ok (.ivar (base + u)) := by
+  unfold getE ivars
+  rw [List.getElem?_map, List.getElem?_range hu]
+  rfl
+
+theorem satFrag_append_cs {base : Nat} {σ' : Asg} {p0 : Prog} {cs : List Expr} :
+    SatFrag base (p0 ++ ({ cs := cs } : Prog)) σ' ↔
+      SatFrag base p0 σ' ∧ ∀ c ∈ cs, eval σ' c = some (.b true) := by
+  have h1 : (p0 ++ ({ cs := cs } : Prog)).decls = p0.decls := by
+    show p0.decls ++ [] = p0.decls
+    simp
+  have h2 : (p0 ++ ({ cs := cs } : Prog)).cs = p0.cs ++ cs := rfl
+  rw [satFrag_iff, h1, h2, List.forall_mem_append, satFrag_iff, and_assoc]
+
+theorem beq_decide_iff {x : Bool} {P : Prop} [Decidable P] :
+    (some (Val.b (x == decide P)) = some (Val.b true)) ↔ (x = true ↔ P) := by
+  cases x <;> simp
+
+/-- Meaning of the border constraints under an extension `σ'` of `σ`. -/
+theorem sat_borderCs {g : Graph} {border : List Expr} {base : Nat} {σ σ' : Asg} {cs : List Expr}
+    (hwf : g.wf = true) (hb : BoolArgs base border) (hbl : border.length = g.edges.length)
+    (hag : AgreeBelow base σ σ')
+    (hcs : (g.edges.zipIdx.mapM fun uv => do
+      let a ← getE (ivars base g.n) uv.1.1
+      let b ← getE (ivars base g.n) uv.1.2
+      iffPy (← getE border uv.2) (.node .ne [a, b])) = .ok cs) :
+    (∀ c ∈ cs, eval σ' c = some (.b true)) ↔
+      ∀ k u v, g.edges[k]? = some (u, v) →
+        (truthAt σ border k = true ↔ σ'.i (base + u) ≠ σ'.i (base + v)) := by
+  have hev : ∀ k u v, g.edges[k]? = some (u, v) → ∀ y,
+      (do
+        let a ← getE (ivars base g.n) u
+        let b ← getE (ivars base g.n) v
+        iffPy (← getE border k) (.node .ne [a, b])) = .ok y →
+      (eval σ' y = some (.b true) ↔
+        (truthAt σ border k = true ↔ σ'.i (base + u) ≠ σ'.i (base + v))) := by
+    intro k u v hk y hy
+    have hbd := edge_bounds hwf hk
+    have hk' : k < border.length := by omega
+    rw [getE_ivars hbd.2.1, ok_bind, getE_ivars hbd.2.2, ok_bind, getE_eq_ok hk', ok_bind] at hy
+    rw [eval_iffPy hy (eval_boolArg hb hag hk') (eval_neI (eval_ivar ..) (eval_ivar ..)),
+      beq_decide_iff]
+  constructor
+  · intro h k u v hk
+    obtain ⟨y, hy, hyr⟩ := mapM_ok_mem hcs (x := ((u, v), k)) (List.mem_zipIdx_iff_getElem?.2 hk)
+    exact (hev k u v hk y hy).1 (h y hyr)
+  · intro h y hy
+    obtain ⟨⟨⟨u, v⟩, k⟩, hm, hf⟩ := mem_of_mapM_ok hcs hy
+    have hk : g.edges[k]? = some (u, v) := List.mem_zipIdx_iff_getElem?.1 hm
+    exact (hev k u v hk y hf).2 (h k u v hk)
+
+/-- the auxiliary (non-native) `_with_borders` route -/
+theorem borders_aux_iff {g : Graph} {gs : List (Option Expr)} {border : List Expr} {base : Nat} {p : Prog} {σ : Asg}
+    (hwf : g.wf = true) (hsz : SizeArgs base g.n (.perVertex gs)) (hb : BoolArgs base border)
+    (hp : variableGroupsWithBorders g gs border false base = .ok p) :
+    Realizable base p σ ↔
+      ∃ C : GroupCert g (sizeSpec σ (.perVertex gs)) true true,
+        ∀ k u v, g.edges[k]? = some (u, v) → (truthAt σ border k = true ↔ C.gid u ≠ C.gid v) := by
+  unfold variableGroupsWithBorders at hp
+  split at hp
+  · cases hp
+  split at hp
+  · cases hp
+  rename_i hlen hbl
+  simp only [Bool.false_eq_true, if_false] at hp
+  rw [bind_eq_ok] at hp
+  obtain ⟨⟨p0, ids⟩, hvg, hp⟩ := hp
+  simp only [bind_eq_ok] at hp
+  obtain ⟨cs, hcs, hp⟩ := hp
+  cases hp
+  obtain ⟨rfl, hn⟩ := groups_ok hvg
+  have hbl' : border.length = g.edges.length := by omega
+  constructor
+  · rintro ⟨σ', hag, hs⟩
+    rw [satFrag_append_cs] at hs
+    obtain ⟨C, hC⟩ := groups_sat_cert hwf hsz hvg hag hs.1
+    refine ⟨C, ?_⟩
+    intro k u v hk
+    have hbd := edge_bounds hwf hk
+    rw [hC u hbd.2.1, hC v hbd.2.2]
+    exact (sat_borderCs hwf hb hbl' hag hcs).1 hs.2 k u v hk
+  · rintro ⟨C, hC⟩
+    obtain ⟨σ', hag, hs, hg⟩ := groups_cert_sat σ hwf hsz hvg C
+    refine ⟨σ', hag, satFrag_append_cs.2 ⟨hs, (sat_borderCs hwf hb hbl' hag hcs).2 ?_⟩⟩
+    intro k u v hk
+    have hbd := edge_bounds hwf hk
+    rw [hg u hbd.2.1, hg v hbd.2.2]
+    exact hC k u v hk
+
 end Cspuz.Proofs.C07L1
+
+/-
+#print axioms Cspuz.Proofs.C07L1.groups_ok          -- [propext, Quot.sound]
+#print axioms Cspuz.Proofs.C07L1.groups_sat_cert    -- [propext, Classical.choice, Quot.sound]
+#print axioms Cspuz.Proofs.C07L1.groups_cert_sat    -- [propext, Classical.choice, Quot.sound]
+#print axioms Cspuz.Proofs.C07L1.borders_aux_iff    -- [propext, Classical.choice, Quot.sound]
+-/
